@@ -153,6 +153,24 @@ ROUND8 = {
 for _k, _v in ROUND8.items():
     TABLE[_k]['text'] += '; round 8: ' + _v
 
+ROUND9 = {
+ 'C02': 'a message emitted right before disconnect() (no pause in between) still reaches its handler once',
+ 'C04': 'namespaces whose connects and disconnects are handled by lifecycle handlers under the catch-all namespace',
+ 'C06': 'binary acknowledgement straddling the server-side end of the client\'s other namespace',
+ 'C07': 'callbacks addressed through a custom room with one member',
+ 'C08': 'class-based namespace and function handler on the same namespace: one CONNECT per namespace',
+ 'C11': 'cancelled coroutine disconnect handlers; accept-all servers with a fresh namespace per client generation',
+ 'C12': 'identical payloads kept by a bystander and the offender, the offender\'s copy edited in place',
+ 'C14': 'rooms named like session ids; handlers that disconnect the sender before they return',
+ 'C15': 'empty payloads; sentinel published by a second manager of the same process',
+ 'C17': 'falsy values for required arguments',
+ 'C18': 'bursts of more than a thousand room changes within one statistics interval',
+ 'C19': 'the server disconnecting the namespace as an end for good',
+ 'C20': 'a bystander on the namespace in every world; reentrant locks of the code under test are scheduler-aware',
+}
+for _k, _v in ROUND9.items():
+    TABLE[_k]['text'] += '; round 9: ' + _v
+
 
 def main():
     checks = []
